@@ -49,3 +49,23 @@ Theorem C13_analysis_sound : forall U ci lower1 absent r lits s i j T,
   M U ci s r i j -> NormOf ci lower1 s T -> exists l, In l lits /\ infix l T.
 Proof. exact literal_check_sound. Qed.
 Print Assumptions C13_analysis_sound.
+
+(* ---- the same statement about the EXECUTABLE tokenizer model (Model/Extract.v: candidates computed
+   from the text by the verified engine over the live table): on every text free of the offending case
+   variants, the Aho-Corasick tokenizer yields exactly the candidate list of the reference tokenizer,
+   in the same order ---- *)
+From EV Require Import Model.Tokenize Model.Extract Model.E2E Gen.ExtractTable Proofs.ExtractProofs.
+
+Theorem C13_filter_lossless : forall s T, clean is_offending s -> NormOf true lower1 s T ->
+  extract_ac U xtable s T = extract_all U xtable s.
+Proof. exact ac_lossless. Qed.
+Print Assumptions C13_filter_lossless.
+
+Theorem C13_tokenizers_agree : forall s, clean is_offending s -> candidates_text s = candidates_text_ref s.
+Proof. exact candidates_text_lossless. Qed.
+Print Assumptions C13_tokenizers_agree.
+
+(* for EVERY text the filter only removes candidates *)
+Theorem C13_filter_sub : forall table s low t, In t (extract_ac U table s low) -> In t (extract_all U table s).
+Proof. exact (extract_ac_sub U). Qed.
+Print Assumptions C13_filter_sub.
